@@ -801,13 +801,28 @@ def copyChunk : Nat → S → Nat → Nat → Nat → S × Nat × CopyEnd
 
 def setLimit (s : S) (n : Nat) : S := setW s { s.w with limit := n }
 
-/-- `Conn.resumeLineLimit`: the limit comes back after a chunk; what is buffered behind the chunk is counted -/
-def armLimit (s : S) : S := setW s (Wire.resume s.w s.cfg.maxLine)
+/-- what `Conn.resumeLineLimit` counts of the buffered octets: the command lines up to and including the first BDAT command line —
+    what follows that line is the payload of the next chunk, not command lines -/
+def cutAtBdat : Nat → Bytes → Bytes
+  | 0, rest => rest
+  | fuel + 1, rest =>
+    match Wire.lfEnd rest with
+    | none => rest
+    | some i =>
+      let line := rest.take i
+      match parseCmd line with
+      | some (cmd, _) => if cmd == "BDAT".b then line else line ++ cutAtBdat fuel (rest.drop i)
+      | none => line ++ cutAtBdat fuel (rest.drop i)
+
+/-- `Conn.resumeLineLimit`: the limit comes back after a chunk; the buffered command lines behind the chunk are counted -/
+def armLimit (s : S) : S := setW s (Wire.resume s.w s.cfg.maxLine (cutAtBdat s.w.buf.length s.w.buf))
 
 /-- skip the payload of a refused BDAT command (`discardChunk`), the line limit lifted meanwhile -/
 def discardChunkN (s : S) (size? : Option Nat) : S :=
   match size? with
-  | some n => setW s (Wire.resume (discardN (wireFuel s.w) { s.w with limit := 0 } n) s.cfg.maxLine)
+  | some n =>
+    let w := discardN (wireFuel s.w) { s.w with limit := 0 } n
+    setW s (Wire.resume w s.cfg.maxLine (cutAtBdat w.buf.length w.buf))
   | none => s
 
 def setBdatStatus (s : S) : S :=
